@@ -124,3 +124,65 @@ func VerifC03ClientBytes() {
 	vf.Assert(conn.closed >= 1, "connection-closed-at-the-end")
 	vf.Reach("done")
 }
+
+// VerifC03ConnectFailure: a CONNECT whose target cannot be reached (no MITM),
+// followed by an ordinary request on the same client connection. The 502 must be
+// a complete, properly framed response with a Warning that passed the response
+// modifier, and what follows it must be consistent with its framing: either the
+// connection goes on and serves the next request one-to-one, or the 502 announced
+// the close and nothing follows it.
+func VerifC03ConnectFailure() {
+	connect := []byte("CONNECT unreachable.example:443 HTTP/1.1\r\nHost: unreachable.example:443\r\n\r\n")
+	second := reqSpec{method: "GET", path: "/two", hval: "b"}
+	conn := newClientConn("client", true, connect, second.wire())
+	shape := vf.Choice("refusal-shape", 3)
+	o := &origin{}
+	o.answer = func(i int, req *http.Request) (*http.Response, error) {
+		return rawResponse(resSpec{status: 200, hval: "y", body: []byte("second")}.wire(), req)
+	}
+	rm := &countingResMod{}
+	p := NewProxy()
+	p.SetRoundTripper(o)
+	p.SetResponseModifier(rm)
+	p.SetDial(func(network, addr string) (net.Conn, error) {
+		switch shape {
+		case 1:
+			return nil, &net.OpError{Op: "dial", Net: "tcp", Addr: &net.TCPAddr{IP: net.IPv4(10, 0, 0, 9), Port: 443}, Err: errors.New("connect: connection refused")}
+		case 2:
+			return nil, &net.OpError{Op: "dial", Net: "tcp", Err: &net.DNSError{Err: "no such host", Name: "unreachable.example", IsNotFound: true}}
+		}
+		return nil, errors.New("dial tcp: connection refused")
+	})
+	serveConn(p, conn)
+
+	out := conn.out.Bytes()
+	br := bufio.NewReader(bytes.NewReader(out))
+	res1, err1 := http.ReadResponse(br, &http.Request{Method: "CONNECT"})
+	vf.Assert(err1 == nil, "client-receives-a-well-formed-response-head")
+	if err1 != nil {
+		return
+	}
+	vf.Assert(res1.StatusCode == 502, "failure-before-the-head-becomes-502")
+	vf.Assert(len(res1.Header["Warning"]) >= 1, "502-carries-a-warning")
+	vf.Assert(len(rm.calls) >= 1 && rm.calls[0] == 502, "502-passed-through-the-response-modifier")
+	// a CONNECT answer other than 2xx has a body framed like any response
+	closeDelimited := res1.ContentLength < 0 && len(res1.TransferEncoding) == 0
+	if res1.Close || closeDelimited {
+		// the client was told the connection ends here: it must, and nothing may follow
+		rest, _ := ioutil.ReadAll(br)
+		vf.Assert(!bytes.Contains(rest, []byte("HTTP/1.1 200")) && len(o.seen) == 0, "nothing-served-after-a-502-that-announced-the-close")
+		vf.Reach("502-closed")
+	} else {
+		_, berr := ioutil.ReadAll(res1.Body)
+		vf.Assert(berr == nil, "502-is-complete")
+		res2, err2 := http.ReadResponse(br, &http.Request{Method: "GET"})
+		vf.Assert(err2 == nil, "connection-serves-the-next-request-after-a-502")
+		if err2 == nil {
+			body2, _ := ioutil.ReadAll(res2.Body)
+			vf.Assert(res2.StatusCode == 200 && string(body2) == "second", "next-response-correct-and-one-to-one")
+		}
+		vf.Assert(len(o.seen) == 1, "next-request-forwarded-once")
+		vf.Reach("502-continues")
+	}
+	vf.Reach("done")
+}
